@@ -1,4 +1,4 @@
-"""Finite models of guards (DESIGN 3.10).
+"""Finite models of guards (DESIGN 3.9).
 
 A guard that touches its operands only through comparisons (==, !=, <, <=, in, is) with constants and with
 each other is a Boolean function of a *finite* set of orderings.  `Model` collects the compared operand
